@@ -136,3 +136,30 @@ class Collector:
             self.sets.setdefault(k, set()).update(
                 tuple(x) if isinstance(x, list) else x for x in vals
             )
+
+
+def guarded(col, case, fn, *args):  # noqa: ANN001, ANN002, ANN201
+    """run one case; anything that escapes (an exception of the library under test that the
+    harness did not anticipate, or a harness bug) becomes a violation with the case attached
+    instead of killing the shard (which would only read as 'inconclusive')"""
+    try:
+        return fn(*args)
+    except (KeyboardInterrupt, SystemExit):
+        raise
+    except BaseException as e:  # noqa: BLE001
+        import traceback
+
+        col.violation("check-or-library-crash",
+                      {"exc": repr(e)[:300], "tb": traceback.format_exc()[-1500:]}, case)  # fmt: skip
+
+
+async def guarded_async(col, case, fn, *args):  # noqa: ANN001, ANN002, ANN201
+    try:
+        return await fn(*args)
+    except (KeyboardInterrupt, SystemExit):
+        raise
+    except BaseException as e:  # noqa: BLE001
+        import traceback
+
+        col.violation("check-or-library-crash",
+                      {"exc": repr(e)[:300], "tb": traceback.format_exc()[-1500:]}, case)  # fmt: skip
